@@ -233,6 +233,9 @@ def generate(model: Model):
             for c in (x for x in ast.walk(fn) if isinstance(x, ast.Compare) and "_layer" in ast.unparse(x)):
                 yield "mutant", "revert:hand-written-layer-not-fusable", "R14d", mod.rel, _splice(mod.source, c, "True")
         for fn in (x for x in tree.body if isinstance(x, ast.FunctionDef) and x.name == "is_filter_pushdown_available"):
+            for w in (x for x in ast.walk(fn) if isinstance(x, ast.While)):
+                for st in (x for x in ast.walk(w) if isinstance(x, ast.Return)):
+                    yield "mutant", "revert:foreign-term-below-reordering-operator", "R03i", mod.rel, _splice(mod.source, st, "continue")
             for st in (x for x in fn.body if isinstance(x, ast.If) and ".frame._name" in ast.unparse(x.test)):
                 yield "mutant", "revert:filter-on-predicate-guard", "R03d", mod.rel, _drop_stmt(mod, st)
     except Exception:  # noqa: BLE001
